@@ -201,11 +201,14 @@ impl<'a> Tokenizer<'a> {
                 None => break,
             }
         }
-        match Decimal::from_str(&self.input[start..self.current()]) {
-            Ok(val) => Ok(Token::Number(val, Span(start, self.current()))),
-            Err(_) => Err(Error::InvalidNumber(
-                self.input[start..self.current()].to_string(),
-            )),
+        let text = &self.input[start..self.current()];
+        // Decimal::from_str stops validating once it has 28 fraction digits, so check the shape here:
+        // digits with at most one decimal point
+        let well_formed = text.bytes().all(|b| b.is_ascii_digit() || b == b'.')
+            && text.bytes().filter(|b| *b == b'.').count() <= 1;
+        match Decimal::from_str(text) {
+            Ok(val) if well_formed => Ok(Token::Number(val, Span(start, self.current()))),
+            _ => Err(Error::InvalidNumber(text.to_string())),
         }
     }
 
